@@ -4,7 +4,7 @@ HOOKS = {
     "guard": "verif",
     "enable": "go build -tags verif (Go build tag; hook files are //go:build verif and add-only)",
     "baseline_off_cmd": "cd /repo && GOFLAGS=-mod=mod GOPROXY=off go test -vet=off -count=1 ./...",
-    "source_commits": [],
+    "source_commits": ["c6ac722"],
     "add_only": True,
 }
 
